@@ -107,6 +107,13 @@ def scans_for(h, rng, count, scan_ops=True):
             a = rng.choice(pool)
             b = rng.choice(pool)
             h.op('Q %s %s %s' % (a, b, halt))
+    if h.kind == 'bytes' and stored:
+        # the two bounds alias one caller buffer (the full key and a proper prefix of it / itself)
+        a = rng.choice(pool)
+        n = len(a) // 2
+        # (only the far bound may be the shorter one: the near bound is used for the descent and must be a full key)
+        h.op('QA %s %d -' % (a, rng.below(n) + 1))
+        h.op('QB %s %d -' % (a, n))
 
 
 def dense_history(rng, kind, scan_ops, nmax):
@@ -317,9 +324,40 @@ def compressible(keys):
     return ok(ks, 0)
 
 
+def teardown_histories(rng, kind):
+    """clear() / destruction of trees whose nodes are of every class, full, at their minimum, and with holes left
+    by removals (C10: leaves and memory zero after clear, everything returned to the allocator at destruction)"""
+    out = []
+    for n in (2, 4, 5, 16, 17, 20, 48, 49, 60, 255, 256):
+        for holes in (0, 1, 3):
+            if holes >= n - 1:
+                continue
+            h = Hist(kind, 'teardown-%d-%d' % (n, holes))
+            pre = rng.below(200)
+            mk = (lambda i: u64((pre << 16) | i)) if kind == 'u64' else (lambda i: '%02x%02x%02x' % (pre, i, 7))
+            for i in range(n):
+                h.ins(mk(i), rnd_val(rng))
+            # a second level under one child, so that inner nodes are torn down recursively
+            if kind == 'u64' and n >= 5:
+                h.ins(u64(((pre + 1) << 16) | 1), '0a')
+                h.ins(u64(((pre + 1) << 16) | 2), '0b')
+            for i in range(holes):
+                h.rem(mk(i * 2))
+            h.op('D')
+            if rng.chance(1, 2):
+                h.op('C')
+                h.op('E')
+                h.op('D')
+                h.ins(mk(1), '05')
+                h.op('D')
+            out.append(h)
+    return out
+
+
 def histories(tier, seed, kind, scan_ops=True):
     rng = Rng(seed * 7919 + (1 if kind == 'u64' else 2))
     out = corpus_histories(kind)
+    out += teardown_histories(rng, kind)
     thorough = tier == 'thorough'
     nd = 40 if thorough else 10
     ns = 120 if thorough else 24
@@ -429,6 +467,11 @@ class Oracle:
         if op == 'C':
             self.m = {}
             return 'C'
+        if op in ('QA', 'QB'):
+            full = t[1]
+            part = full[:2 * int(t[2])]
+            t = ['Q', full, part, t[3]] if op == 'QA' else ['Q', part, full, t[3]]
+            op = 'Q'
         if op in ('S', 'F', 'Q'):
             items = sorted((bytes.fromhex(k), k, v) for k, v in self.m.items())
             if op == 'S':
@@ -462,6 +505,9 @@ class Oracle:
         kv = dict(p.split('=', 1) for p in parts[1:] if '=' in p)
         if 'VIEWBAD' in parts:
             probs.append('a held value view changed')
+        for q in parts:
+            if q.startswith('HEAPBAD'):
+                probs.append('bytes held from the allocator differ from the reported memory use: ' + q)
         if 'L' in kv:
             counts, mem = radix_stats(list(self.m.keys()), self.sizes, self.m, lambda k: len(k) // 2)
             if int(kv['L']) != len(self.m):
